@@ -837,10 +837,13 @@ FH_NAMES = sorted(_FH_ENV.filters)
 FH_VALUES = ["<b>hi</b>", "x <script>alert(1)", "</script>y <i>z</i>", "<style>p{}", "a<![foo[ bar]]>b", "plain", [3, 1, 2], {"k": 1}, "1,2,3", 5, 2.5, None,
              "%d %s", "2020-01-02", [{"k": 2}, {"k": 1}], "a b  c", "<a><script>", True,
              # values that are equal (and hash alike) but print differently: a memo keyed by equality confuses them
-             0.0, -0.0, __import__("decimal").Decimal("1.0"), __import__("decimal").Decimal("1.00"), 1, 1.0]
+             0.0, -0.0, __import__("decimal").Decimal("1.0"), __import__("decimal").Decimal("1.00"), 1, 1.0,
+             # exact rounding ties (what they round to depends on the rounding mode in force)
+             0.125, 2.675, "0.125", 2.5, -0.5]
+_FH_FORMS = ("{{ v | %s }}", "{{ v | %s: 'k' }}", "{{ v | %s: 2 }}")
 _FH_T = {}
 for _f in FH_NAMES:
-    for _form in ("{{ v | %s }}", "{{ v | %s: 'k' }}"):
+    for _form in _FH_FORMS:
         try:
             _FH_T[(_f, _form)] = _FH_ENV.from_string(_form % _f)
         except Exception:
@@ -856,11 +859,27 @@ def _fh_fresh(key, v):
     return _fh_run(key, v)
 
 
-_FH_BASE = {(key, bi): _fh_fresh(key, FH_VALUES[bi]) for key in _FH_T for bi in range(len(FH_VALUES))}
+def _fh_baseline():
+    """Each template's results in a thread of its own (thread-local state such as the decimal context starts fresh there)
+    with the process-wide memos emptied before every call."""
+    import threading
+    base = {}
+
+    def work(key):
+        for bi in range(len(FH_VALUES)):
+            base[(key, bi)] = _fh_fresh(key, FH_VALUES[bi])
+    for key in _FH_T:
+        th = threading.Thread(target=work, args=(key,))
+        th.start()
+        th.join()
+    return base
+
+
+_FH_BASE = _fh_baseline()
 
 
 def filter_history_sweep(fi, form):
-    key = (FH_NAMES[fi], ("{{ v | %s }}", "{{ v | %s: 'k' }}")[form])
+    key = (FH_NAMES[fi], _FH_FORMS[form])
     if key not in _FH_T:
         return []
     bad = []
@@ -877,18 +896,57 @@ def filter_history_sweep(fi, form):
 
 def c17_filter_history(fi: int, form: int) -> bool:
     """
-    pre: 0 <= fi <= 79 and 0 <= form <= 1
+    pre: 0 <= fi <= 79 and 0 <= form <= 2
     post: _
     """
     if excluded("c17_filter_history", locals()):
         return True
     from vf.hx import cint
-    fi, form = cint(fi, 0, len(FH_NAMES) - 1), cint(form, 0, 1)
+    fi, form = cint(fi, 0, len(FH_NAMES) - 1), cint(form, 0, 2)
     return finish(untraced(lambda: not filter_history_sweep(fi, form)))
 
 
 DETAIL["c17_filter_history"] = lambda fi, form: {"failing": filter_history_sweep(fi, form)}
 CONDITIONS.append({"fn": "c17_filter_history", "quick": 90, "thorough": 200, "sel_only": True})
+
+# ---- one filter's calls do not colour another filter's results: filter X applied to every value, then every filter on every
+# value against the baseline ----------------------------------------------------------------------------------------------
+def filter_cross_sweep(fi):
+    for form in _FH_FORMS:
+        key = (FH_NAMES[fi], form)
+        if key in _FH_T:
+            for v in FH_VALUES:
+                _fh_run(key, v)
+    bad = []
+    # two passes: a difference in the first is due to X, one in the second to some filter applied during the first (in a fresh
+    # process a filter early in the alphabet is otherwise compared before a later one has had the chance to leave anything)
+    for rnd in (1, 2):
+        for key in _FH_T:
+            for bi in range(len(FH_VALUES)):
+                got = _fh_run(key, FH_VALUES[bi])
+                if got != _FH_BASE[(key, bi)]:
+                    bad.append({"after applying": FH_NAMES[fi] if rnd == 1 else "every filter once", "template": key[1] % key[0], "to": repr(FH_VALUES[bi]), "gives": got,
+                                "in a fresh thread": _FH_BASE[(key, bi)]})
+                    if len(bad) > 2:
+                        return bad
+    return bad
+
+
+def c17_filter_cross_history(fi: int) -> bool:
+    """
+    pre: 0 <= fi <= 79
+    post: _
+    """
+    if excluded("c17_filter_cross_history", locals()):
+        return True
+    from vf.hx import cint
+    fi = cint(fi, 0, len(FH_NAMES) - 1)
+    return finish(untraced(lambda: not filter_cross_sweep(fi)))
+
+
+DETAIL["c17_filter_cross_history"] = lambda fi: {"failing": filter_cross_sweep(fi)}
+CONDITIONS.append({"fn": "c17_filter_cross_history", "quick": 300, "thorough": 600, "sel_only": True,
+                   "bounds": "80 filters x 3 argument forms x %d values applied first; then all of them again against a baseline taken in fresh threads" % len(FH_VALUES)})
 
 # ---- one parsed template whose tags meet different definitions from render to render (a macro defined by whichever partial
 # the data selects, a block overridden or not, a partial chosen by name): each render equals the render of a fresh parse ----
